@@ -130,6 +130,9 @@ func closeKnown(known []string) []string {
 //            mixed values would make the implementation's outcome depend on Go map iteration order (see notes)
 //   single : one family, not prefix-closed, no fan-out above the family
 //   stale  : fixed shape that deterministically leaves a stale key (finding F15c), random ids
+//   template: declared endpoints base/v1/{id} … base/v<thr>/{id} (exactly at the split threshold), traffic below them, and
+//            one traffic URL that still carries a template segment (base/v<thr+1>/{id}): its insert converges the tree
+//            AND fails on the clashing parameter name — NormalizeTree must report (converged = true) with the error
 //   bad    : single + one URL the tree refuses (regression for the repaired F15a: the batch is no longer dropped)
 //   delim  : URLs containing the METHOD:::URL delimiter (regression for the repaired F15b)
 //   weird  : no convergence; trimming, host/path confusion, trailing wildcard
@@ -148,6 +151,29 @@ func genStream(r *prng.R, maxLen int, kind string) stream {
 		pool = urlPool(r, s.thr, &s.known, 3, true)
 		s.known = closeKnown(s.known)
 		closed = true
+	case "template":
+		s.thr = r.Range(2, 3)
+		h := prng.Pick(r, []string{"api.com", "a.com", "api.b.io"})
+		pname := prng.Pick(r, []string{"id", "key", "userId"})
+		for k := 1; k <= s.thr; k++ {
+			s.known = append(s.known, fmt.Sprintf("%s/v%d/{%s}", h, k, pname))
+		}
+		n := r.Range(4, min(maxLen, 14))
+		tpl := r.Range(1, n-1) // position of the template-bearing record (never first: something must be re-keyed)
+		ts := int64(1_700_000_000_000)
+		for i := 0; i < n; i++ {
+			ts += int64(r.Intn(2500))
+			u := fmt.Sprintf("%s/v%d/%d", h, r.Range(1, s.thr), r.Range(1, 9))
+			if i == tpl {
+				u = fmt.Sprintf("%s/v%d/{%s}", h, s.thr+1, prng.Pick(r, []string{pname, "other"}))
+			} else if i > tpl && r.Chance(30) {
+				u = fmt.Sprintf("%s/v%d/%d", h, s.thr+1, r.Range(1, 9))
+			}
+			s.recs = append(s.recs, recLine(ts, r.Intn(5000), 5000+r.Intn(100), prng.Pick(r, statuses), prng.Pick(r, methods), u,
+				prng.Pick(r, interceptors), prng.Pick(r, consumers), false))
+		}
+		s.n = len(s.recs)
+		return s
 	case "stale":
 		s.thr = 2
 		h := prng.Pick(r, hosts)
@@ -237,6 +263,32 @@ func randomCuts(r *prng.R, n int) []int {
 	return cuts
 }
 
+// faultRun: a restart-free splitting whose last batch is non-empty (so the final flush succeeds and the file is
+// complete) and in which the flushes of some earlier batches fail.
+func faultRun(r *prng.R, n int) (string, bool) {
+	if n < 2 {
+		return "", false
+	}
+	var cuts []int
+	k := r.Range(1, min(n-1, 6))
+	for i := 0; i < k; i++ {
+		cuts = append(cuts, r.Range(0, n-1))
+	}
+	sort.Ints(cuts)
+	var fd []int
+	seen := map[int]bool{}
+	for _, c := range cuts {
+		if !seen[c] && r.Chance(50) {
+			fd = append(fd, c)
+			seen[c] = true
+		}
+	}
+	if len(fd) == 0 {
+		fd = []int{cuts[r.Intn(len(cuts))]}
+	}
+	return fmt.Sprintf("run cuts=%s restarts=- faildumps=%s", join(cuts), join(fd)), true
+}
+
 func (s stream) header() []string {
 	ops := []string{fmt.Sprintf("cfg thr=%d", s.thr)}
 	for _, k := range s.known {
@@ -256,6 +308,8 @@ func gen(r *prng.R, f proto.Flags, emit func(proto.Case)) {
 			switch {
 			case k%25 == 24:
 				kind = "weird"
+			case k%25 == 22:
+				kind = "template"
 			case k%25 == 23:
 				kind = "stale"
 			case k%2 == 1:
@@ -284,6 +338,11 @@ func gen(r *prng.R, f proto.Flags, emit func(proto.Case)) {
 				}
 				ops = append(ops, fmt.Sprintf("run cuts=%s restarts=%d", join(cuts), prng.Pick(rr, cuts)))
 			}
+			for j := 0; j < 6; j++ {
+				if op, ok := faultRun(rr, s.n); ok {
+					ops = append(ops, op)
+				}
+			}
 			id++
 			emit(proto.Case{ID: fmt.Sprintf("t%d", id), Ops: ops})
 		}
@@ -295,6 +354,8 @@ func gen(r *prng.R, f proto.Flags, emit func(proto.Case)) {
 		switch {
 		case k%20 < 7:
 			kind = "single"
+		case k%20 == 15:
+			kind = "template"
 		case k%20 == 16:
 			kind = "stale"
 		case k%20 == 17:
@@ -333,6 +394,11 @@ func gen(r *prng.R, f proto.Flags, emit func(proto.Case)) {
 				}
 			}
 			ops = append(ops, fmt.Sprintf("run cuts=%s restarts=%s", join(cuts), join(rs)))
+		}
+		for j := 0; j < 2; j++ {
+			if op, ok := faultRun(rr, s.n); ok {
+				ops = append(ops, op)
+			}
 		}
 		id++
 		emit(proto.Case{ID: fmt.Sprintf("g%d", id), Ops: ops})
